@@ -10,7 +10,8 @@ LEVEL = 'exploration'
 RULE = ('all conditional trees of depth <= d: node = test from a menu of 24 boolean tests (iftrue/iffalse/ifnum/ifdim/ifodd/'
         'ifx/ifdefined/newif switch; operands literal, count/dimen register, \\value, macro-produced) or \\ifcase with 1-3 '
         '\\or arms and every selector in -1..k+1 (literal or register), each with/without \\else, a child conditional in at '
-        'most one branch position (taken or untaken); x placement (top level, group, macro body, macro argument) x switch '
+        'most one branch position (taken or untaken); at d = 3 (thorough) the root and both lower levels range over a '
+        'representative sub-menu (12 boolean tests incl. the switch, \\ifcase with 2 arms, all selectors); x placement (top level, group, macro body, macro argument) x switch '
         'setters in branches on/off. Non-trivial: at least one branch is skipped and one is taken; distinct = distinct '
         '(tree, placement, setter flag); outcomes = distinct (text, side-effect mask, switch state)')
 ASSUMPTIONS = [
@@ -99,11 +100,26 @@ def leaves_small():
     return out
 
 
+def leaves2_small():
+    """trees of at most two levels over the representative test menu (both levels)"""
+    out = []
+    small = leaves_small()
+    for n in small:
+        out.append(n)
+        nb = (1 + n[2]) if n[0] == 'b' else (n[1] + 1 + n[4])
+        for child in small:
+            for pos in range(nb):
+                out.append(n[:-2] + [pos, child])
+    return out
+
+
 def nodes_for_outer(depth, outer, inner_small=False):
-    """All trees of at most `depth` levels whose root is the test `outer`."""
+    """All trees of at most `depth` levels whose root is the test `outer`; at depth 3 the two lower levels range over the
+    representative menu."""
     key = (depth, inner_small)
     if key not in _SUBS:
-        _SUBS[key] = [] if depth == 1 else (leaves_small() if (inner_small and depth == 2) else leaves(depth - 1))
+        _SUBS[key] = [] if depth == 1 else (leaves_small() if (inner_small and depth == 2) else (
+            leaves2_small() if depth == 3 else leaves(depth - 1)))
     subs = _SUBS[key]
     out = []
     if outer[0] == 'b':
@@ -358,7 +374,7 @@ def run(tier, seed, rep):
                 (2, 'arg', 0, 0, 'inner'), (2, 'group', 0, 1, 'inner')]
     else:
         plan = [(2, w, s, sw0, False) for w in WRAPPERS for s, sw0 in ((0, 0), (0, 1), (1, 0), (1, 1))]
-        plan += [(3, w, s, sw0, True) for w, s, sw0 in (('top', 0, 0), ('body', 1, 1))]
+        plan += [(3, w, s, sw0, True) for w, s, sw0 in (('top', 0, 0), ('body', 1, 1), ('arg', 0, 1), ('group', 1, 0))]
     for depth, w, s, sw0, small in plan:
         outers = sorted(set(_outer_id(n) for n in leaves(1, False)), key=repr)
         if small is True and depth >= 3:
